@@ -15,21 +15,23 @@ N == Len(Rec)
 VARIABLES l,
           path,    \* level 1: state kinds along the current message sequence
           role1,   \* level 1: which machine
-          knows    \* level 2: the adversary of this run uses the real cookie
-tvars == <<vars, l, path, role1, knows>>
+          knows,   \* level 2: the adversary of this run uses the real cookie
+          dev      \* named deviations this run needed
+tvars == <<vars, l, path, role1, knows, dev>>
 Ev == Rec[l]
 Adv == l' = l + 1
 Live == l <= N
 IsA(a) == Live /\ Ev.a = a
 Same == UNCHANGED vars
 L1Same == UNCHANGED <<path, role1>>
+ND == UNCHANGED dev
 
 RolesAny == [s \in Sessions |-> {"server", "client"}]
 Msg == [c |-> Ev.c, k |-> Ev.k, p |-> Ev.p, n |-> Ev.n]
 
 -----------------------------------------------------------------------------
 (* Level 1 *)
-FsmInit == /\ IsA("fsm.init") /\ Adv /\ Same /\ UNCHANGED knows
+FsmInit == /\ IsA("fsm.init") /\ Adv /\ Same /\ UNCHANGED knows /\ ND
            /\ role1' = Ev.role
            /\ path' = <<IF Ev.role = "server" THEN SrvInit ELSE CliInit>>
            /\ Ev.to = path'[1]
@@ -38,18 +40,20 @@ StepFrom(from) ==
     THEN IF Ev.k = "StartChallenge" THEN SrvStartChallenge(from)
          ELSE IF from = "HavePeerName" THEN "WaitingOnClientStatus" ELSE "undefined"
     ELSE IF role1 = "server" THEN SrvNext(from, Msg) ELSE CliNext(from, Msg)
-FsmStep == /\ IsA("fsm.step") /\ Adv /\ Same /\ UNCHANGED <<role1, knows>>
+FsmStep == /\ IsA("fsm.step") /\ Adv /\ Same /\ UNCHANGED <<role1, knows>> /\ ND
            /\ Ev.depth \in 1..Len(path)
            /\ path' = Append(SubSeq(path, 1, Ev.depth), StepFrom(path[Ev.depth]))
            /\ Ev.to = StepFrom(path[Ev.depth])
 
 -----------------------------------------------------------------------------
 (* Level 2 *)
-Plan == IsA("obs.plan") /\ Adv /\ Same /\ L1Same /\ knows' = (Ev.knows = 1)
-OpenEv == IsA("obs.open") /\ Adv /\ L1Same /\ UNCHANGED knows /\ Ev.s \in Sessions /\ Open(Ev.s, Ev.role)
+Plan == IsA("obs.plan") /\ Adv /\ Same /\ L1Same /\ ND /\ knows' = (Ev.knows = 1)
+OpenEv == IsA("obs.open") /\ Adv /\ L1Same /\ ND /\ UNCHANGED knows /\ Ev.s \in Sessions /\ Open(Ev.s, Ev.role)
 SendEv == /\ IsA("env.send") /\ Adv /\ L1Same /\ UNCHANGED knows /\ Ev.s \in Sessions
           /\ (Ev.c = "auth" /\ Ev.p = "good") => knows      \* a right digest needs the cookie
           /\ Recv(Ev.s, Msg)
+          \* a digest the node itself computed on another session and the adversary relayed
+          /\ dev' = IF Reflected(Ev.s, Msg) THEN dev \cup {"DigestReflection"} ELSE dev
 
 Count(q, x) == Cardinality({i \in 1..Len(q) : q[i] = x})
 Range(q) == {q[i] : i \in 1..Len(q)}
@@ -59,7 +63,7 @@ SelSeq(q, T(_)) == LET F[i \in 0..Len(q)] == IF i = 0 THEN <<>> ELSE IF T(q[i]) 
 IsP(e) == e[2] = "adv"
 IsQ(e) == e[2] # "adv"
 AfterEv ==
-  /\ IsA("obs.after") /\ Adv /\ L1Same /\ UNCHANGED knows /\ Ev.s \in Sessions
+  /\ IsA("obs.after") /\ Adv /\ L1Same /\ ND /\ UNCHANGED knows /\ Ev.s \in Sessions
   /\ LET r == ss[Ev.s]
          dp == SelSeq(r.dlv, IsP) IN
      /\ r.role # "none"
@@ -75,16 +79,17 @@ AfterEv ==
      /\ Len(Ev.hp) = Len(dp) /\ \A i \in 1..Len(dp) : Ev.hp[i] = dp[i][3] /\ Ev.hk[i] = dp[i][1]
      /\ Ev.hq = Len(SelSeq(r.dlv, IsQ)) /\ Ev.hq = 0
      /\ ss' = [ss EXCEPT ![Ev.s].out = <<>>, ![Ev.s].dlv = <<>>] /\ up' = up
-End == /\ IsA("obs.end") /\ Adv /\ Same /\ L1Same /\ UNCHANGED knows
+End == /\ IsA("obs.end") /\ Adv /\ Same /\ L1Same /\ ND /\ UNCHANGED knows
        /\ (Ev.up = 1) = up
-       /\ ~knows => \A s \in Sessions : ss[s].eff = {} /\ ~ss[s].everOk
+       /\ (~knows /\ dev = {}) => \A s \in Sessions : ss[s].eff = {} /\ ~ss[s].everOk
+       /\ (dev # {} => PrintT(<<"DEVIATION", dev>>))
 
 Reset == /\ IsA("reset") /\ Adv
          /\ ss' = [s \in Sessions |-> NoSession] /\ up' = TRUE
-         /\ path' = <<>> /\ role1' = "none" /\ knows' = TRUE
+         /\ path' = <<>> /\ role1' = "none" /\ knows' = TRUE /\ dev' = {}
 
 TNext == Reset \/ FsmInit \/ FsmStep \/ Plan \/ OpenEv \/ SendEv \/ AfterEv \/ End
-TInit == Init /\ l = 1 /\ path = <<>> /\ role1 = "none" /\ knows = TRUE /\ TLCSet(42, 1)
+TInit == Init /\ l = 1 /\ path = <<>> /\ role1 = "none" /\ knows = TRUE /\ dev = {} /\ TLCSet(42, 1)
 TSpec == TInit /\ [][TNext]_tvars
 Progress == TLCSet(42, IF l > TLCGet(42) THEN l ELSE TLCGet(42))
 Accepted == IF TLCGet(42) > N THEN TRUE
@@ -92,5 +97,5 @@ Accepted == IF TLCGet(42) > N THEN TRUE
                  /\ FALSE
 
 \* run-level reading of C17's first clause on the recorded executions
-NoCookieNoEffectRun == ~knows => \A s \in Sessions : ss[s].eff = {} /\ ~ss[s].everOk /\ ~ss[s].listed
+NoCookieNoEffectRun == (~knows /\ dev = {}) => \A s \in Sessions : ss[s].eff = {} /\ ~ss[s].everOk /\ ~ss[s].listed
 =============================================================================
